@@ -235,8 +235,41 @@ func init() {
 			if len(up.Attrs.Communities) != c.Comm || len(up.Attrs.LargeComm) != c.LComm {
 				return dv("communities", "wrong", []int{c.Comm, c.LComm}, []int{len(up.Attrs.Communities), len(up.Attrs.LargeComm)}, "")
 			}
+			// the content, not only the amount, comes back
+			for k, v := range up.Attrs.Communities {
+				if v != 65000<<16|uint32(k+1) {
+					return dv("communities", "wrong", 65000<<16|uint32(k+1), v, fmt.Sprintf("value of community %d", k))
+				}
+			}
+			for k, v := range up.Attrs.LargeComm {
+				if v != [3]uint32{65000, uint32(k), 3} {
+					return dv("communities", "wrong", [3]uint32{65000, uint32(k), 3}, v, fmt.Sprintf("value of large community %d", k))
+				}
+			}
 			if s.RRC && c.CL > 0 && (len(up.Attrs.ClusterList) != c.CL || up.Attrs.OriginatorID != 9) {
 				return dv("cluster-list", "wrong", c.CL, len(up.Attrs.ClusterList), "")
+			}
+			if s.RRC && c.CL > 0 {
+				for k, v := range up.Attrs.ClusterList {
+					if v != 1000+uint32(k) {
+						return dv("cluster-list", "wrong", 1000+uint32(k), v, fmt.Sprintf("value of entry %d", k))
+					}
+				}
+			}
+			if up.Attrs.Origin != 0 {
+				return dv("origin", "wrong", 0, up.Attrs.Origin, "")
+			}
+			wantNH := addr(s.V6, 9).Bytes()
+			if !s.V6 {
+				wantNH = wantNH[len(wantNH)-4:]
+			}
+			if fmt.Sprintf("%x", up.Attrs.NextHop) != fmt.Sprintf("%x", wantNH) {
+				return dv("next-hop", "wrong", fmt.Sprintf("%x", wantNH), fmt.Sprintf("%x", up.Attrs.NextHop), "")
+			}
+			for k, r := range up.Attrs.Unknown {
+				if r.Type != 200+k || r.Flags&0xc0 != 0xc0 {
+					return dv("unknown-attributes", "wrong", fmt.Sprintf("type %d, optional transitive", 200+k), fmt.Sprintf("type %d flags %#x", r.Type, r.Flags), "")
+				}
 			}
 			if len(up.Attrs.Unknown) != len(unknowns) {
 				return dv("unknown-attributes", "wrong", len(unknowns), len(up.Attrs.Unknown), "")
